@@ -22,12 +22,16 @@ R = Registry(
         "edges registered in uow.dependencies are acyclic and their transitive closure contains the precedence "
         "pairs a FOREIGN KEY checking backend needs (oracle fk_order_obligations.json); UOWTransaction.execute "
         "runs the actions in topological order of exactly that edge set and rewrites aggregate edges onto the "
-        "per-object actions of cycle members; post-update statements are emitted only by the ordered "
-        "_PostUpdateAll action."
+        "per-object actions of cycle members, reading the edges to rewrite only after the per-object actions "
+        "(which register further aggregate edges) were generated; post-update statements are emitted only by the "
+        "ordered _PostUpdateAll action; every action handing states to persistence._save_obj/_delete_obj selects "
+        "them at execution time on the uow.states components that remove_state_actions() (row switch) changes, "
+        "aggregate and per-object form alike."
     ),
     not_decided=(
         "the per-row sort inside one mapper (_sort_states, self-referential sort_key), joined-inheritance table "
-        "order, and that the emitted statements satisfy constraints for every object graph."
+        "order, and that the emitted statements satisfy constraints for every object graph; whether the per-object "
+        "_ProcessState actions should skip cancelled states like _ProcessAll._elements does."
     ),
 )
 
